@@ -451,3 +451,8 @@ mod tests {
         AeadAlgorithm::Ocb
     );
 }
+
+// verification hook (add-only, inert unless built by `cargo kani`, which sets --cfg kani)
+#[cfg(kani)]
+#[path = "/verif/kani/aead_harness.rs"]
+mod verif_kani;
